@@ -76,6 +76,28 @@ def run(ctx):
         comp_names = tuple(reads)
         ctx.require(len(comp_names) == (2 if nb == 8 else 1), f'_read_next_block[{nb} bit]: expected {2 if nb == 8 else 1} strided '
                     f'reads of the raw byte buffer, found {len(comp_names)}')
+        if nb == 8:
+            # components are paired by ROLE, not by statement order: on the writer side the stored value is the real / the
+            # imaginary part of the requantised voltages, on the decoder side the imaginary component is the read that the
+            # decoded complex sample multiplies by 1j
+            def w_role(e):
+                hs = {a.args[0] for a in T.all_atoms(e.data['value']).values() if a.kind == 'call'}
+                return 1 if ('imag' in hs and 'real' not in hs) else 0 if ('real' in hs and 'imag' not in hs) else None
+
+            def r_role(n):
+                v = reads[n].data['value']
+                for e2 in IR.events:
+                    if e2.kind == 'store' and e2.data.get('target') == 'sub':
+                        for m, cf in e2.data['value'].p.items():
+                            ats = [a for a, _ in m]
+                            if any(a.key == v.single_atom().key for a in ats):
+                                return 1 if any(a.kind == 'J' or (a.kind == 'call' and a.args[0] == 'J') for a in ats) else 0
+                return None
+            wr, rr_ = [w_role(e) for e in wst], [r_role(n) for n in comp_names]
+            if sorted(x for x in wr if x is not None) == [0, 1] and len(wst) == 2:
+                wst = [e for _, e in sorted(zip(wr, wst), key=lambda t: t[0])]
+            if sorted(x for x in rr_ if x is not None) == [0, 1]:
+                comp_names = tuple(n for _, n in sorted(zip(rr_, comp_names), key=lambda t: t[0]))
         wl = [time_index(e) for e in wst]
         rl = []
         for n in comp_names:
